@@ -78,6 +78,15 @@ def pool():
                  'N': pre.NEWTON, 'J': pre.JOULE, 'kWh': pre.KILOWATT_HOUR, 'km/h': pre.KILOMETRE_PER_HOUR,
                  'kg': pre.KILOGRAM, 'lb': pre.POUND, 'EUR': Money.register_currency('EUR'),
                  'USD': Money.register_currency('USD'), 'K': pre.KELVIN, '°C': pre.CELSIUS}
+        # user units: scaled by a plain int inside a term / int * unit / Fraction; derived units of a type without
+        # reference unit (price per mass in two currencies)
+        T, uu = C.user_linear_type('TLen', 't0')
+        for sym, (u, sc) in uu.items():
+            _POOL[sym] = u
+        PPM = C.mk_cls('TPricePerMass', define_as=Money / pre.Mass)
+        _POOL['EUR/kg'] = PPM.derive_unit_from(_POOL['EUR'], pre.KILOGRAM)
+        _POOL['USD/kg'] = PPM.derive_unit_from(_POOL['USD'], pre.KILOGRAM)
+        _POOL['EUR/lb'] = PPM.derive_unit_from(_POOL['EUR'], pre.POUND)
     return _POOL
 
 
@@ -241,6 +250,32 @@ def single(E, cfg):
         E.check(same(E, denote(t.items), (d[0] + 1, d[1])), 'canary-factor-off-by-one')
 
 
+def noref_units(E, cfg):
+    """terms over derived units of a type without reference unit: value-level obligations only"""
+    from quantity.term import Term
+    s1 = E.choice('shape', cfg['shapes'])
+    s2 = E.choice('second', cfg['shapes'][:4])
+    env = _env(E)
+    i1, i2 = _items(E, s1, env), _items(E, s2, env)
+    d1, d2 = denote(i1), denote(i2)
+    info = [repr(s1), repr(s2)]
+    t1, t2 = Term(i1), Term(i2)
+    E.check(same(E, denote(t1.items), d1), 'construction-preserves-value', key='term:noref-construct', info=info)
+    E.check(same(E, denote(t1.normalized().items), d1), 'normalisation-preserves-value', key='term:noref-normalize', info=info)
+    E.check(same(E, denote(Term(i1, reduce_items=False).normalized().items), d1), 'unreduced-normalisation-preserves-value',
+            key='term:noref-normalize-unreduced', info=info)
+    E.check(same(E, denote(t1.reciprocal().items), (1 / d1[0], {k: -e for k, e in d1[1].items()})), 'reciprocal',
+            key='term:noref-reciprocal', info=info)
+    E.check(same(E, denote((t1 * t2).items), (d1[0] * d2[0], _vadd(d1[1], d2[1], 1))), 'product-homomorphic',
+            key='term:noref-product', info=info)
+    E.check(same(E, denote((t1 / t2).items), (d1[0] / d2[0], _vadd(d1[1], d2[1], -1))), 'quotient-homomorphic',
+            key='term:noref-quotient', info=info)
+    E.check(same(E, denote((t1 ** 2).items), (d1[0] * d1[0], {k: 2 * e for k, e in d1[1].items()})), 'power',
+            key='term:noref-power', info=info)
+    E.check(t1 == Term(i1), 'equal-to-same-construction', key='term:noref-eq-self', info=info)
+    _no_float(E, (t1 * t2).normalized().items, 'noref-no-float', info)
+
+
 def pair(E, cfg):
     from quantity.term import Term
     s1, s2 = E.choice('pair', cfg['pairs'])
@@ -348,6 +383,24 @@ HAND_SHAPES = [
 ]
 
 
+USER_SHAPES = [
+    [('ui3', 1)], [('ui3', 1), ('ui7', -1)], [('ui3', 1), ('ui7', 1)], [('ui7', 2), ('ui3', -1), ('t0', 1)],
+    [('ui3', 1), ('um3', -1)], [('uc', 1), ('ui7', -1)], [('uf', 1), ('ud', 1), ('ui3', -2)], [('x', 1), ('ui7', 1), ('ui3', -1)],
+    [('ui3', -1)], [('ui7', 1), ('s', -1), ('ui3', 1)],
+]
+# two units of one reference-less type in a term: not inter-convertible and of one sort key, so the order-sensitive
+# obligations (known finding term:same-sort-key-order) are left out for them; values are checked
+NOREF_SHAPES = [
+    [('EUR/kg', 1)], [('EUR/kg', 1), ('USD/kg', -1)], [('EUR/kg', 1), ('USD/kg', 1)], [('EUR/kg', 1), ('kg', 1)],
+    [('USD/kg', 1), ('lb', 1)], [('EUR/kg', 1), ('EUR/lb', -1)], [('x', 1), ('USD/kg', -1), ('EUR/kg', 2)],
+    [('USD/kg', 2), ('EUR/kg', -2)], [('EUR/lb', 1), ('USD/kg', -1), ('y', 1)],
+]
+USER_PAIRS = [
+    [[['ui3', 1]], [['i3', 1], ['t0', 1]]], [[['ui3', 1], ['ui7', -1]], [['i3', 1], ['i7', -1]]],
+    [[['ui3', 1], ['ui7', 1]], [['i21', 1], ['t0', 2]]], [[['ui3', 1]], [['um3', 1]]], [[['uc', 1]], [['i84', 1], ['t0', 1]]],
+]
+
+
 def _rand_shape(rng, maxlen):
     n = rng.randint(1, maxlen)
     out = []
@@ -382,6 +435,13 @@ def jobs(tier, seed):
     for ch in C.chunks(shapes[:48] if tier == 'quick' else shapes[:200], 8):
         out.append({'fn': 'scalars', 'cfg': {'shapes': ch}})
     out.append({'fn': 'same_key', 'cfg': {}})
+    ushapes = [list(map(list, sh)) for sh in USER_SHAPES]
+    out.append({'fn': 'single', 'cfg': {'shapes': ushapes}})
+    out.append({'fn': 'scalars', 'cfg': {'shapes': ushapes}})
+    out.append({'fn': 'pair', 'cfg': {'pairs': USER_PAIRS + [[a, b] for a in ushapes[:10] for b in ushapes[:3]] +
+                                      [],
+                                      'triples': True, 'third': [['x', 1], ['ui3', 1]]}})
+    out.append({'fn': 'noref_units', 'cfg': {'shapes': [list(map(list, sh)) for sh in NOREF_SHAPES]}})
     out.append({'fn': 'single', 'cfg': {'shapes': [[['x', 1], ['km', 1]]], 'canary': True}, 'canary': True})
     LAST_CONFIG_INFO.clear()
     LAST_CONFIG_INFO.update({'shapes': len(shapes), 'pairs': len(pairs), 'max_items': maxlen, 'exhaustive': False})
